@@ -22,7 +22,10 @@ import (
 
 	"github.com/antonmedv/expr"
 	"github.com/antonmedv/expr/ast"
+	"github.com/antonmedv/expr/checker"
+	"github.com/antonmedv/expr/conf"
 	"github.com/antonmedv/expr/file"
+	"github.com/antonmedv/expr/optimizer"
 	"github.com/antonmedv/expr/parser"
 )
 
@@ -530,7 +533,7 @@ func runC10(c *Ctx) {
 	r := c.R
 	loadReplayKey(c)
 	c10CompilePatch(c)
-	r.Rule = "trees built as Go ast values: every chain slot/slot/kind to depth 3 over all 22 node kinds and all 28 child positions (incl. nil From/To, empty lists), every tree of depth<=3 over {Identifier, Binary, Slice, Array}, random trees to depth 6; parsed sources: 41 contexts x 11 leaves, all context pairs, random compositions; each walked by the real ast.Walk with an idle and with replacing visitors (Enter/Exit x assignment/ast.Patch, at every position of small trees), compared with the Lean model (table from ast/visitor.go) and with the reflection oracle; expr.Compile with expr.Patch replacing an identifier in every context; non-trivial = tree has >= 2 nodes; distinct by (tree, visitor, position)"
+	r.Rule = "trees built as Go ast values: every chain slot/slot/kind to depth 3 over all 22 node kinds and all 28 child positions (incl. nil From/To, empty lists), every tree of depth<=3 over {Identifier, Binary, Slice, Array}, random trees to depth 6; type-checked and optimized trees (ConstantNode, range and membership rewrites); parsed sources: 41 contexts x 11 leaves, all context pairs, random compositions; each walked by the real ast.Walk with an idle and with replacing visitors (Enter/Exit x assignment/ast.Patch, at every position of small trees), compared with the Lean model (table from ast/visitor.go) and with the reflection oracle; expr.Compile with expr.Patch replacing an identifier in every context; non-trivial = tree has >= 2 nodes; distinct by (tree, visitor, position)"
 
 	var cases []c10case
 	addTree := func(label string, t ast.Node, modes []string, allPositions bool) {
@@ -598,6 +601,33 @@ func runC10(c *Ctx) {
 	}
 	if parsed < nsrc/2 {
 		r.Mismatch("generator", "sources", fmt.Sprintf("only %d of %d sources parse", parsed, nsrc), "")
+	}
+
+	// trees the optimizer produces (ConstantNode, rewritten ranges and membership tests, shared operands)
+	optEnv := map[string]interface{}{"x": 2, "s": "a", "arr": []int{1, 2, 3}, "fn": func(a int) int { return a }}
+	nopt, nconst := 0, 0
+	for _, src := range []string{"x in 1..3", "1 + 2 * 3", "x in [1, 2, 3]", "s in ['a', 'b']", "len(1..5)", "arr[1 + 1:]",
+		"(1..9)[x:3 + 1]", "[1 + 1, x][0:1 * 1]", "map(1..3, {# * (2 + 1)})", "not (x in 2..4)", "true ? 1 + 1 : 2", "{a: 1 + 2}.a",
+		"fn(1 + 2)", "arr[x in 1..2 ? 0 : 1:]", "(x in [1, 2] ? arr : arr)[:2 - 1]", "-(1 + 2) + x", "'a' + 'b' == s"} {
+		tree, err := parser.Parse(src)
+		if err != nil {
+			continue
+		}
+		config := conf.New(optEnv)
+		if _, err := checker.Check(tree, config); err != nil {
+			continue
+		}
+		if err := optimizer.Optimize(&tree.Node, config); err != nil {
+			continue
+		}
+		nopt++
+		if strings.Contains(nodeSx(tree.Node, false).String(), "(const ") {
+			nconst++
+		}
+		addTree("optimized:"+src, cloneTree(tree.Node), allModes, true)
+	}
+	if nopt < 12 || nconst < 3 {
+		r.Mismatch("generator", "optimized trees", fmt.Sprintf("%d optimized trees, %d with ConstantNode", nopt, nconst), "")
 	}
 
 	// model side
